@@ -14,7 +14,7 @@ git apply $src/patch.diff || { res "patch does not apply"; git -C /repo worktree
 go build ./... 2>&1 | tail -3
 suite=$(go test -vet=off -count=1 ./... 2>&1 | grep -v "^ok\|no test files" | head -5)
 [ -z "$suite" ] && suite_ok=pass || suite_ok="FAIL: $suite"
-cp $src/demo_test.go $dest
+mkdir -p $(dirname $dest); cp $src/demo_test.go $dest
 with=$(go test -vet=off -count=1 "$@" 2>&1 | tail -4 | tr '\n' ' ')
 echo "$with" | grep -q "^ok\|[^A-Z]ok " && with_ok="passes(!)" || with_ok=fails
 git apply -R $src/patch.diff
